@@ -99,6 +99,10 @@ _add(_c("lsn_orth_weak", "LSN", [2, 2], [3, 4, 3], 1, "lsn", dict(orthogonal=Tru
 _add(_c("cdn_orth_weak", "CDN", [2, 2], [3, 3, 3, 3, 3, 3], 1, "cdn", dict(orthogonal=True, xpoint_refine_atol=1e-14, **DN), fpol="quad", psi_scale=0.01))
 C04_EXTRA = ["lsn_orth_weak", "cdn_orth_weak"]
 
+# ---- tilted X-point: region joins oblique to the R / Z axes (seed C01_corner_row_mixed is second order on the symmetric families)
+_add(_c("lsn_tilt_orth", "LSN", [2, 2], [3, 4, 3], 1, "lsn_tilt", dict(orthogonal=True), fpol="quad", pressure="quad"))
+_add(_c("lsn_tilt_nonorth", "LSN", [2, 2], [3, 4, 3], 1, "lsn_tilt", dict(orthogonal=False), fpol="quad"))
+
 # ---- the isolated X-point (TORPEX, shipped coil set) at a small size
 _add(_c("xpt_orth", "XPT", [2, 2], [3, 3, 3, 3], 1, None, dict(orthogonal=True)))
 _add(_c("xpt_nonorth", "XPT", [2, 2], [3, 3, 3, 3], 1, None, dict(orthogonal=False), yaml="torpex-coils-nonorth.yaml"))
@@ -131,7 +135,7 @@ ENVELOPE_QUICK = ["env_ny1", "env_g4", "env_nfine5", "env_len_small", "env_nx1",
 ENVELOPE = ENVELOPE_QUICK + ["env_sol_wide", "env_len_big", "env_core_deep", "env_cdn_second_inside", "env_nonorth_n50", "env_sepmult", "env_lim"]
 
 CORE_CAMPAIGN = ["lsn_orth", "usn_orth", "lsn_orth_rev", "lsn_nonorth", "lsn_nonorth_rev", "cdn_orth", "ldn_orth",
-                 "udn_nonorth", "core_orth", "lim_orth", "lsn_orth_x2", "lsn_orth_g2", "lsn_orth_extrap", "udn_orth", "xpt_orth"]
+                 "udn_nonorth", "core_orth", "lim_orth", "lsn_orth_x2", "lsn_orth_g2", "lsn_orth_extrap", "udn_orth", "xpt_orth", "lsn_tilt_orth"]
 
 # ---- extended campaign (thorough tier) ------------------------------------------------
 _add(_c("usn_nonorth", "USN", [2, 2], [3, 4, 3], 1, "usn", dict(orthogonal=False), fpol="quad"))
@@ -150,7 +154,7 @@ _add(_c("lsn_orth_n50", "LSN", [2, 2], [3, 4, 3], 1, "lsn", dict(orthogonal=True
 _add(_c("lsn_orth_n200", "LSN", [2, 2], [3, 4, 3], 1, "lsn", dict(orthogonal=True, finecontour_Nfine=200), fpol="quad", pressure="quad", wall="slanted"))
 
 EXTENDED_CAMPAIGN = CORE_CAMPAIGN + ["usn_nonorth", "cdn_nonorth", "ldn_nonorth", "lsn_orth_dct", "lsn_orth_g0", "lsn_orth_lop",
-                                     "cdn_orth_uo", "ldn_orth_uo", "core_nonorth", "lim_orth_g2", "lsn_orth_wide", "lsn_orth_n50", "lsn_orth_n200", "lsn_orth_weak", "xpt_nonorth"]
+                                     "cdn_orth_uo", "ldn_orth_uo", "core_nonorth", "lim_orth_g2", "lsn_orth_wide", "lsn_orth_n50", "lsn_orth_n200", "lsn_orth_weak", "xpt_nonorth", "lsn_tilt_nonorth"]
 
 
 def campaign(tier):
